@@ -21,7 +21,7 @@ from ..consteval import Folder, Regex
 from ..tables import Atom, canon
 from .. import rx, tables
 from . import c18_rx
-from .c18_rows import Row, Eff, Normal, build, compare, param_names, _Sub
+from .c18_rows import Row, Eff, Normal, build, compare, param_names, unroll_constant_loops, _Sub
 
 MTEST = 'mesonbuild/mtest.py'
 PARSER = 'TAPParser'
@@ -86,8 +86,8 @@ class Facts:
         self.repo = ctx.repo
         self.mod = mod = ctx.repo.module(MTEST)
         self.cls = mod.cls(PARSER)
-        self.parse_line = mod.func(f'{PARSER}.parse_line')
-        self.parse_test = mod.func(f'{PARSER}.parse_test')
+        self.parse_line = unroll_constant_loops(mod.func(f'{PARSER}.parse_line'))      # normal form: loops over constant displays unrolled
+        self.parse_test = unroll_constant_loops(mod.func(f'{PARSER}.parse_test'))
         self._consts: T.Dict[str, T.Any] = {}
         self.states = self._find_states()
         self.regexes: T.Dict[str, Regex] = {}
@@ -163,6 +163,10 @@ class Facts:
 
     def default(self, name: str) -> T.Any:
         """Initial value of a parser field: the class-level default, or the value `__init__` stores unconditionally."""
+        if self.mod.has_assign(name, self.cls):
+            c0 = attr_chain(self.mod.assign_value(name, self.cls)) or ''
+            if c0.count('.') == 1 and self.const_key(c0) is not None:       # `state = _State.MAIN`
+                return self.const_value(T.cast(str, self.const_key(c0)))
         if self.mod.has_assign(name, self.cls) or any(isinstance(st, ast.Assign) and isinstance(st.targets[0], (ast.Tuple, ast.List)) and
                                                       name in [getattr(t, 'id', None) for t in st.targets[0].elts] for st in self.cls.body):
             return self.fold(name)
@@ -174,6 +178,8 @@ class Facts:
                     v = st.value
                     c = attr_chain(v) or ''
                     head, _, tail = c.rpartition('.')
+                    if self.const_key(c) is not None and c.split('.')[0] in ('self', PARSER, 'cls'):
+                        return self.const_value(T.cast(str, self.const_key(c)))
                     if head in ('self', PARSER, 'cls') and tail:
                         return self.fold(tail)
                     return _Folder(self.repo, self.mod, self.cls).fold(v)
@@ -195,7 +201,7 @@ class Facts:
         for _ in range(2):
             nxt = []
             for q in level:
-                for n in walk_no_nested(meths[q]):
+                for n in walk_no_nested(self.parse_line if q == 'parse_line' else meths[q]):     # parse_line in its normal form (constant loops unrolled)
                     if isinstance(n, (ast.Expr, ast.Assign, ast.AnnAssign)) and getattr(n, 'value', None) is not None:
                         c = n.value.value if isinstance(n.value, ast.YieldFrom) else n.value
                         if isinstance(c, ast.Call) and isinstance(c.func, ast.Attribute) and attr_chain(c.func.value) == 'self' \
@@ -248,6 +254,26 @@ class Facts:
             return list(out)
         raise Undecided(f'{PARSER}: cannot fold the unpacked value `{short(v)}`')
 
+    def const_key(self, chain: str) -> T.Optional[str]:
+        """Canonical text (without the `self.` / `TAPParser.` / `cls.` lead-in) of a chain that denotes a class-level constant usable as a
+        parser state: an integer constant `X`, or a member `E.M` of an Enum class nested in the parser (or at module level)."""
+        parts = chain.split('.')
+        if parts and parts[0] in ('self', PARSER, 'cls'):
+            parts = parts[1:]
+        if len(parts) == 1 and parts[0] and self._has_const(parts[0]):
+            v = self.fold(parts[0])
+            return parts[0] if isinstance(v, int) and not isinstance(v, bool) else None
+        if len(parts) == 2:
+            enum_cls = next((st for st in list(self.cls.body) + list(self.mod.tree.body) if isinstance(st, ast.ClassDef) and st.name == parts[0]
+                             and any((attr_chain(b) or '').split('.')[-1] in ('Enum', 'IntEnum', 'Flag', 'IntFlag', 'StrEnum') for b in st.bases)), None)
+            if enum_cls is not None and any(isinstance(st, ast.Assign) and any(isinstance(t, ast.Name) and t.id == parts[1] for t in st.targets)
+                                            for st in enum_cls.body):
+                return '.'.join(parts)
+        return None
+
+    def const_value(self, key: str) -> T.Any:
+        return self.fold(key) if '.' not in key else ('enum member', key)
+
     def _has_const(self, name: str) -> bool:
         try:
             self.fold(name)
@@ -270,8 +296,7 @@ class Facts:
 
             def cname(e: ast.AST) -> T.Optional[str]:
                 c = attr_chain(e) or ''
-                head, _, tail = c.rpartition('.')
-                return tail if head in ('self', PARSER, 'cls') and self._has_const(tail) else None
+                return self.const_key(c) if c.split('.')[0] in ('self', PARSER, 'cls') else None
             for n in ast.walk(self.parse_line):
                 if isinstance(n, ast.Assign) and any(attr_chain(t) == 'self.state' for t in n.targets) and cname(n.value):
                     used[T.cast(str, cname(n.value))] = n
@@ -311,7 +336,7 @@ class Facts:
                                 for st in n.body:
                                     if isinstance(st, ast.Assign) and any(attr_chain(t) == 'self.state' for t in st.targets) and cname(st.value):
                                         yaml_names.add(T.cast(str, cname(st.value)))
-            vals = {k: self.fold(k) for k in used}
+            vals = {k: self.const_value(k) for k in used}
             init = self.default('state')
             main = [k for k, v in vals.items() if v == init]
             if len(set(vals.values())) != 3 or len(vals) != 3 or len(main) != 1 or len(yaml_names) != 1 or yaml_names == set(main):
@@ -321,18 +346,18 @@ class Facts:
             out = {'_MAIN': vals[main[0]], '_YAML': vals[y], '_AFTER_TEST': vals[after[0]]}
             self.state_names = {'_MAIN': main[0], '_YAML': y, '_AFTER_TEST': after[0]}
         for r, v in out.items():
-            if not isinstance(v, int) or isinstance(v, bool):
-                raise Undecided(f'{PARSER}: state {r} does not fold to an integer: {v!r}')
+            if isinstance(v, bool) or not (isinstance(v, int) or (isinstance(v, tuple) and v and v[0] == 'enum member')):
+                raise Undecided(f'{PARSER}: state {r} does not fold to an integer or an enum member: {v!r}')
         return out
 
     def state_of(self, text: str) -> T.Optional[str]:
         """'self._YAML' / 'TAPParser._YAML' (whatever the constant is called) -> the role '_YAML', by folded value."""
-        head, _, tail = text.rpartition('.')
-        if head not in ('self', PARSER, 'cls') or not tail or not self._has_const(tail):
+        if text.split('.')[0] not in ('self', PARSER, 'cls'):
             return None
-        v = self.fold(tail)
-        if isinstance(v, bool) or not isinstance(v, int):
+        key = self.const_key(text)
+        if key is None:
             return None
+        v = self.const_value(key)
         hits = [r for r, x in self.states.items() if x == v]
         return hits[0] if len(hits) == 1 else None
 
@@ -474,18 +499,27 @@ class Sections:
                     marks.append((first, i, rn, var, mexpr, st))   # type: ignore[arg-type]
         if not marks:
             raise Undecided('parse_line: no `m = REGEX.match(line); if m:` section found')
+        between: T.Dict[int, T.Dict[str, ast.AST]] = {}      # pure local bindings found before the section starting at that index
         for (a1, b1, *_), (a2, *_) in zip(marks, marks[1:]):
-            if a2 != b1 + 1:
-                raise Undecided('parse_line: statements between the line-form sections')
+            for st_ in text[b1 + 1:a2]:
+                tg = st_.targets[0] if isinstance(st_, ast.Assign) and len(st_.targets) == 1 else (st_.target if isinstance(st_, ast.AnnAssign) else None)
+                val = getattr(st_, 'value', None)
+                if not (isinstance(tg, ast.Name) and val is not None and not any(isinstance(x, (ast.Call, ast.Yield, ast.YieldFrom, ast.Await, ast.NamedExpr))
+                                                                                for x in ast.walk(val))):
+                    raise Undecided(f'parse_line: `{short(st_, 60)}` between the line-form sections is not a pure local binding')
+                between.setdefault(a2, {})[tg.id] = val
         kinds = [FORM_OF[mk[2]] for mk in marks]
         if sorted(kinds) != sorted(MAIN_KINDS):
             raise Undecided(f'parse_line: line-form sections found for {kinds}, expected one each of {list(MAIN_KINDS)}')
         self.match_exprs: T.List[T.Tuple[int, int, str, str, ast.AST]] = []
         self.pre, pre_exit = build(fn, text[:marks[0][0]], 'parse_line[state, blank/diagnostic]', helpers=f.helper, keep_forward=('parse_test',), normal=f.normal())
         self.by_kind: T.Dict[str, Section] = {}
+        carried: T.Dict[str, ast.AST] = {}
         for first, i, rn, var, mexpr, st in marks:
-            seed = dict(pre_exit)
-            seed[var] = _Sub(pre_exit, ps).visit(_copy(mexpr))
+            for nm, val in between.get(first, {}).items():       # a display bound between two sections is visible to the later ones
+                carried[nm] = _Sub({**pre_exit, **carried}, ps).visit(_copy(val))
+            seed = {**pre_exit, **carried}
+            seed[var] = _Sub(seed, ps).visit(_copy(mexpr))
             self.match_exprs.append((first, i, rn, var, seed[var]))
             tab, _ = build(fn, st.body, f'parse_line[{FORM_OF[rn]} line]', seed, helpers=f.helper, keep_forward=('parse_test',), normal=f.normal())
             self.by_kind[FORM_OF[rn]] = Section(FORM_OF[rn], rn, tab, st)
@@ -563,8 +597,8 @@ def _int_const(text: str) -> T.Optional[int]:
 
 
 def _state_atom(f: Facts, a: Atom) -> T.Optional[str]:
-    if a.kind == 'cmp' and a.args[0] == 'eq':
-        x, y = a.args[1], a.args[2]
+    if (a.kind == 'cmp' and a.args[0] == 'eq') or a.kind == 'is':
+        x, y = a.args[-2], a.args[-1]
         if x == 'self.state' and f.state_of(y):
             return f.state_of(y)
         if y == 'self.state' and f.state_of(x):
@@ -844,9 +878,9 @@ def _pre_sem(m: Model) -> T.Callable[[Atom], T.Optional[T.Tuple[str, bool]]]:
         st = _state_atom(f, a)
         if st:
             return 'S' + st, False
-        if a.kind == 'cmp' and a.args[0] == 'eq' and f.state_of(a.args[1]) and f.state_of(a.args[2]):
+        if ((a.kind == 'cmp' and a.args[0] == 'eq') or a.kind == 'is') and f.state_of(a.args[-2]) and f.state_of(a.args[-1]):
             # a state test evaluated after the state was assigned on this row: two constants, decided by their folded values
-            return ('constants equal' if f.state_of(a.args[1]) == f.state_of(a.args[2]) else 'constants differ'), False
+            return ('constants equal' if f.state_of(a.args[-2]) == f.state_of(a.args[-1]) else 'constants differ'), False
         th = _thresh(a, lambda x: x == 'self.version')
         if th:
             return f'version>={th[0]}', th[1]
@@ -1707,7 +1741,7 @@ def r1(ctx: RuleCtx) -> None:
         s_in = IN.get(node.id, frozenset())
         if isinstance(st, ast.Assert):
             t = st.test
-            if isinstance(t, ast.Compare) and len(t.ops) == 1 and isinstance(t.ops[0], ast.Eq) and 'self.state' in (attr_chain(t.left), attr_chain(t.comparators[0])):
+            if isinstance(t, ast.Compare) and len(t.ops) == 1 and isinstance(t.ops[0], (ast.Eq, ast.Is)) and 'self.state' in (attr_chain(t.left), attr_chain(t.comparators[0])):
                 other = t.comparators[0] if attr_chain(t.left) == 'self.state' else t.left
                 k = f.state_of(attr_chain(other) or '')
                 if k is None:
@@ -2043,7 +2077,7 @@ def r4(ctx: RuleCtx) -> None:
         if node.kind == 'stmt' and isinstance(node.ast, ast.Assert):
             t = node.ast.test
             ok = False
-            if isinstance(t, ast.Compare) and len(t.ops) == 1 and isinstance(t.ops[0], ast.Eq):
+            if isinstance(t, ast.Compare) and len(t.ops) == 1 and isinstance(t.ops[0], (ast.Eq, ast.Is)):
                 for x, y in ((t.left, t.comparators[0]), (t.comparators[0], t.left)):
                     k = f.state_of(attr_chain(y) or '')
                     if attr_chain(x) == 'self.state' and k:
